@@ -723,37 +723,48 @@ pub fn symbol_classes(s: &str) -> String {
     set.into_iter().collect::<Vec<_>>().join("+")
 }
 
+/// Self-test of the oracle's own machinery (run by both checks at start-up and by `cargo test`):
+/// symbol classification, recovering parse, value comparison, block-string decoding of descriptions.
+pub fn self_test() -> Result<(), String> {
+    let ck = |ok: bool, what: &str| if ok { Ok(()) } else { Err(format!("model self-test failed: {what}")) };
+    ck(symbol_classes("a\"b") == "quote", "classes: quote")?;
+    ck(symbol_classes("\\\"\"\"") == "escaped-triple-quote", "classes: escaped triple quote")?;
+    ck(symbol_classes("\"\"\"\"") == "quote+triple-quote", "classes: four quotes")?;
+    ck(symbol_classes("\na") == "edge-lf" && symbol_classes("a\nb") == "lf" && symbol_classes("") == "empty", "classes: line feeds")?;
+    // a broken definition is isolated, its neighbours are kept
+    let src = "type A {\n\tx: Int\n}\n\ntype B {\n\tx: Int @deprecated(reason: \"a\"b\")\n}\n\n\"\"\"\ndoc\n\"\"\"\nenum E {\n\tV\n}\n";
+    let (defs, bad, whole) = parse_recovering(src);
+    ck(whole.is_some() && defs.len() == 2 && bad.len() == 1 && bad[0].name == "B", "recovering parse isolates `type B`")?;
+    let m = Model::from_defs(&defs)?;
+    ck(m.types["E"].desc.as_deref() == Some("doc"), "description of the definition after the broken one")?;
+    // a broken description takes its definition with it
+    let src = "\"\"\"\na\"\"\"b\n\"\"\"\ntype T {\n\tv: Int\n}\n\ntype U {\n\tv: Int\n}\n";
+    let (defs, bad, _) = parse_recovering(src);
+    ck(defs.len() == 1 && bad.len() == 1 && bad[0].name == "T", "a broken description is attributed to its definition")?;
+    // §2.9.4: block string semantics decide what a description says
+    let m = Model::from_sdl("\"\"\"\n  a\\\"\"\"b\n\n  c\n\"\"\"\ntype T { \"x\\ny\" f(a: [Int!] = [1, 2]): Int @deprecated }")?;
+    ck(m.types["T"].desc.as_deref() == Some("a\"\"\"b\n\nc"), "block string value")?;
+    ck(m.types["T"].fields[0].desc.as_deref() == Some("x\ny") && m.types["T"].fields[0].deprecated == Some(None), "field description and bare @deprecated")?;
+    let p = |s: &str| agv_refgql::parse::parse_value(s, true).map(|v| v.v).map_err(|e| e.msg);
+    ck(value_eq(&p("{a: 1, b: [1.0, \"x\"]}")?, &p("{b: [1, \"x\"], a: 1}")?), "object fields as a set, numbers numerically")?;
+    ck(!value_eq(&p("\"X\"")?, &p("X")?) && !value_eq(&p("{a: 1}")?, &p("{a: 1, b: null}")?), "string ≠ enum, missing ≠ null")?;
+    // comparison notices each listed aspect
+    let a = Model::from_sdl("interface I { x: Int } type T implements I { \"d\" x(a: Int = 1 @deprecated(reason: \"r\")): Int } enum E { A B } union U = T")?;
+    let b = Model::from_sdl("interface I { x: Int } type T { \"e\" x(a: Int = 2 @deprecated(reason: \"s\")): Int! } enum E { A } union U = T | T2 type T2 { y: Int }")?;
+    let aspects: BTreeSet<&str> = compare(&a, &b, &CmpCfg::default(), &BTreeSet::new()).iter().map(|d| d.aspect).collect();
+    for want in ["implements", "description", "default-value", "deprecation", "type-reference", "enum-value-set", "union-members", "type-unexpected"] {
+        ck(aspects.contains(want), &format!("comparison reports `{want}`"))?;
+    }
+    ck(compare(&a, &a, &CmpCfg::default(), &BTreeSet::new()).is_empty(), "a model equals itself")?;
+    Ok(())
+}
+
 #[cfg(test)]
 mod tests {
     use super::*;
 
     #[test]
-    fn classes() {
-        assert_eq!(symbol_classes("a\"b"), "quote");
-        assert_eq!(symbol_classes("\\\"\"\""), "escaped-triple-quote");
-        assert_eq!(symbol_classes("\"\"\"\""), "quote+triple-quote");
-        assert_eq!(symbol_classes("\na"), "edge-lf");
-        assert_eq!(symbol_classes("a\nb"), "lf");
-        assert_eq!(symbol_classes(""), "empty");
-    }
-
-    #[test]
-    fn recovering_parse_isolates_the_broken_definition() {
-        let src = "type A {\n\tx: Int\n}\n\ntype B {\n\tx: Int @deprecated(reason: \"a\"b\")\n}\n\n\"\"\"\ndoc\n\"\"\"\nenum E {\n\tV\n}\n";
-        let (defs, bad, whole) = parse_recovering(src);
-        assert!(whole.is_some());
-        assert_eq!(defs.len(), 2);
-        assert_eq!(bad.len(), 1);
-        assert_eq!(bad[0].name, "B");
-        let m = Model::from_defs(&defs).unwrap();
-        assert_eq!(m.types["E"].desc.as_deref(), Some("doc"));
-    }
-
-    #[test]
-    fn values_compare_as_values() {
-        let p = |s: &str| agv_refgql::parse::parse_value(s, true).unwrap().v;
-        assert!(value_eq(&p("{a: 1, b: [1.0, \"x\"]}"), &p("{b: [1, \"x\"], a: 1}")));
-        assert!(!value_eq(&p("\"X\""), &p("X")));
-        assert!(!value_eq(&p("{a: 1}"), &p("{a: 1, b: null}")));
+    fn self_test_passes() {
+        self_test().unwrap();
     }
 }
